@@ -100,7 +100,10 @@ func encodedClasses(decode func(idx int, s string) error) func(v string, a A, f 
 		if strings.ContainsAny(s, "\r\n") {
 			c = append(c, "encoded-has-newline")
 		}
-		if strings.ContainsAny(s, "=*") {
+		if i := strings.IndexAny(s, "=*"); i >= 0 {
+			if strings.Trim(s[i:], "=*\r\n") != "" {
+				c = append(c, "encoded-data-after-padding")
+			}
 			c = append(c, "encoded-padded")
 		}
 		return c
@@ -171,15 +174,25 @@ func init() {
 	// ------------------------------------------------------------ base32
 	setGroup("base32-hex")
 	kinds["enc32"] = &kind{wa: "raw",
-		gen:     func(g *genCtx) string { return encI(int64(rapid.IntRange(0, len(b32Encs)-1).Draw(g.t, "enc32"))) },
-		lit:     func(v string) string { return b32Encs[A{v}.Int(0)].wa },
-		classes: func(v string, _ A, _ *fn) []string { return []string{"enc=" + strings.TrimPrefix(b32Encs[A{v}.Int(0)].wa, "base32.")} }}
+		gen: func(g *genCtx) string { return encI(int64(rapid.IntRange(0, len(b32Encs)-1).Draw(g.t, "enc32"))) },
+		lit: func(v string) string { return b32Encs[A{v}.Int(0)].wa },
+		classes: func(v string, _ A, _ *fn) []string {
+			return []string{"enc=" + strings.TrimPrefix(b32Encs[A{v}.Int(0)].wa, "base32.")}
+		}}
 	kinds["b32str"] = &kind{wa: "string",
 		gen: func(g *genCtx) string {
 			return encS(genEncoded(g, func(i int, src []byte) string { return b32Encs[i].e.EncodeToString(src) }, len(b32Encs)))
 		},
 		classes: encodedClasses(func(i int, s string) error { _, err := b32Encs[i].e.DecodeString(s); return err })}
 	kinds["b32bytes"] = &kind{wa: "[]byte", gen: kinds["b32str"].gen, classes: kinds["b32str"].classes}
+	// input of the stream decoder: additionally classified by what Go's stream decoder says
+	kinds["b32stream"] = &kind{wa: "string", gen: kinds["b32str"].gen, classes: func(v string, a A, f *fn) []string {
+		c := kinds["b32str"].classes(v, a, f)
+		if _, err := io.ReadAll(base32.NewDecoder(b32Encs[A{a[0]}.Int(0)].e, strings.NewReader(A{v}.Str(0)))); err != nil {
+			c = append([]string{"stream-rejected-by-go"}, c...)
+		}
+		return c
+	}}
 	e32 := func(a A) *base32.Encoding { return b32Encs[a.Int(0)].e }
 	reg("encoding/base32", "Encoding.EncodeToString", "enc:enc32 src:bytes", "str", func(a A) []interface{} {
 		return R(e32(a).EncodeToString(a.Bytes(1)))
@@ -215,7 +228,7 @@ func init() {
 		w.Close()
 		return R(buf.String())
 	}).Imp("bytes").T("buf: bytes.Buffer\nsrc := $1\nk := $2\nif k > len(src) {\n\tk = len(src)\n}\nw := base32.NewEncoder($0, &buf)\nw.Write(src[:k])\nw.Write(src[k:])\nw.Close()\nr0 := buf.String()")
-	reg("encoding/base32", "NewDecoder", "enc:enc32 s:b32str", "bytes err", func(a A) []interface{} {
+	reg("encoding/base32", "NewDecoder", "enc:enc32 s:b32stream", "bytes err", func(a A) []interface{} {
 		b, err := io.ReadAll(base32.NewDecoder(e32(a), strings.NewReader(a.Str(1))))
 		return R(b, E(err))
 	}).Imp("strings", "io").T("r0, r1 := io.ReadAll(base32.NewDecoder($0, strings.NewReader($1)))")
